@@ -285,3 +285,33 @@ def from_dict_of(kind, x):
     if kind == 'step':
         return EstimationStep.from_dict if isinstance(x, EstimationStep) else SimulationStep.from_dict
     return getattr(pmod, CLASSES[kind]).from_dict
+
+
+def build_frame(spec):
+    """spec: {'columns': [..], 'dtypes': [..], 'rows': [[..]], 'index': {'range': [a, b, c]} | {'labels': [..]},
+    'how': 'dict' | 'records', 'attrs': bool, 'columns_name': str | None, 'index_name': str | None}.
+    Floats are given as hex strings (float.hex) so that -0.0 and NaN survive the JSON spec."""
+    import numpy as np
+    import pandas as pd
+
+    def cell(v, dt):
+        if dt.startswith('float'):
+            return float.fromhex(v)
+        return v
+    cols, dts = spec['columns'], spec['dtypes']
+    rows = [[cell(v, dt) for v, dt in zip(r, dts)] for r in spec['rows']]
+    if spec.get('how') == 'records':
+        df = pd.DataFrame.from_records([tuple(r) for r in rows], columns=cols)
+    else:
+        df = pd.DataFrame({c: [r[i] for r in rows] for i, c in enumerate(cols)})
+    df = df.astype({c: dt for c, dt in zip(cols, dts)})
+    ix = spec['index']
+    if 'range' in ix:
+        df.index = pd.RangeIndex(*ix['range'])
+    else:
+        df.index = pd.Index(ix['labels'], dtype='int64', name=spec.get('index_name'))
+    if spec.get('attrs'):
+        df.attrs['note'] = 'x'
+    if spec.get('columns_name'):
+        df.columns.name = spec['columns_name']
+    return df
